@@ -545,6 +545,41 @@ Proof.
   destruct H as [H | []]. symmetry. exact H.
 Qed.
 
+Lemma filter_none : forall (p : test -> bool) l, (forall u, In u l -> p u = false) -> filter p l = [].
+Proof.
+  intros p l. induction l as [|a l IH]; intro H; [reflexivity|]. cbn [filter].
+  rewrite (H a (or_introl eq_refl)). apply IH. intros u Hu. apply H. right. exact Hu.
+Qed.
+
+Lemma filter_unique : forall (p : test -> bool) l t,
+  NoDup l -> In t l -> (forall u, In u l -> p u = true -> u = t) -> p t = true -> filter p l = [t].
+Proof.
+  intros p l t. induction l as [|a l IH]; intros Hn Hin Hu Hp; [destruct Hin|].
+  inversion Hn as [|a' l' Ha Hn']; subst. cbn [filter]. destruct Hin as [Hin | Hin].
+  - subst a. rewrite Hp. f_equal. apply filter_none. intros u Hu'.
+    destruct (p u) eqn:E; [|reflexivity]. exfalso. apply Ha. rewrite <- (Hu u (or_intror Hu') E). exact Hu'.
+  - destruct (p a) eqn:E.
+    + exfalso. apply Ha. rewrite (Hu a (or_introl eq_refl) E). exact Hin.
+    + apply IH; try assumption. intros u Hu' Hpu. apply Hu; [right; exact Hu' | exact Hpu].
+Qed.
+
+Lemma gen_emit_unique : forall file_tests t,
+  NoDup (file_tests t) -> In t (file_tests t) ->
+  (forall u, In u (file_tests t) -> t_name u = t_name t -> u = t) ->
+  harness_executes (gen_emit file_tests t) = harness_executes (gen_current t).
+Proof.
+  intros file_tests t Hn Hin Hu. rewrite gen_current_executes.
+  unfold harness_executes, gen_emit. cbn [h_marked h_filter libtest_selects].
+  assert (E : forall l : list test, filter (fun _ : test => true) l = l).
+  { induction l as [|a l IH]; [reflexivity|]. cbn [filter]. rewrite IH. reflexivity. }
+  rewrite E. destruct (harness_runs_body t) eqn:Hr.
+  - apply filter_unique; try assumption.
+    + intros u Hu' Hp. apply andb_true_iff in Hp. destruct Hp as [Hp _]. apply str_eqb_spec in Hp. apply Hu; assumption.
+    + rewrite str_eqb_refl, Hr. reflexivity.
+  - apply filter_none. intros u Hu'. destruct (str_eqb (t_name u) (t_name t)) eqn:En; [|reflexivity].
+    apply str_eqb_spec in En. rewrite (Hu u Hu' En), Hr. reflexivity.
+Qed.
+
 Lemma gen_all_marked_in : forall exact file_tests t u,
   In u (harness_executes (gen_all_marked exact file_tests t)) <->
   In u (file_tests t) /\ harness_runs_body u = true /\
